@@ -16,6 +16,7 @@ type Outcome struct {
 	Problem string // "" if every oracle passed
 	Class   string
 	Summary string // canonical description of what was observed (for counting distinct outcomes)
+	Writes  int    // announced writes to shared state (informational)
 }
 
 type Explorer struct {
@@ -28,6 +29,10 @@ type Explorer struct {
 	Contended  int64 // points with >= 2 enabled threads
 	Capped     bool
 	Divergence string
+	// StopOnProblem: end the exploration of this configuration at the first execution on which an
+	// oracle fails (used for configurations whose executions are long: one witness is enough)
+	StopOnProblem bool
+	Stopped       bool
 }
 
 // run replays prefix then takes choice 0 at every later point.
@@ -66,7 +71,7 @@ func (e *Explorer) Explore() {
 }
 
 func (e *Explorer) explore(prefix []int) {
-	if e.Capped || e.Divergence != "" {
+	if e.Capped || e.Stopped || e.Divergence != "" {
 		return
 	}
 	if e.MaxExecs > 0 && e.Execs >= e.MaxExecs {
@@ -83,6 +88,10 @@ func (e *Explorer) explore(prefix []int) {
 		}
 	}
 	e.OnOutcome(o)
+	if e.StopOnProblem && o.Problem != "" {
+		e.Stopped = true
+		return
+	}
 	for i := len(prefix); i < len(pts); i++ {
 		p := pts[i]
 		cost := preemptionsBefore(pts, i)
